@@ -39,6 +39,9 @@ type builder struct {
 	reject  string
 	rule    string
 	unknown string
+	// hard is set when the workspace uses something that changes how the other rules apply
+	// (editions features): then not even a rule violation is decided
+	hard bool
 }
 
 func (b *builder) rej(rule, format string, args ...any) {
@@ -51,6 +54,9 @@ func (b *builder) rej(rule, format string, args ...any) {
 func (b *builder) unk(format string, args ...any) {
 	if b.unknown == "" {
 		b.unknown = fmt.Sprintf(format, args...)
+	}
+	if strings.Contains(format+fmt.Sprint(args...), "features.") {
+		b.hard = true
 	}
 }
 
@@ -92,6 +98,8 @@ func Check(ws *WS) *Result {
 	}
 	res := &Result{}
 	switch {
+	case b.hard:
+		res.Verdict, res.Reason = Unknown, b.unknown
 	case b.reject != "":
 		// an unknown construct may hide a second opinion, but a violated rule stays violated
 		res.Verdict, res.Reason, res.Rule = Reject, b.reject, b.rule
@@ -730,6 +738,14 @@ func (b *builder) field(fl *File, scope string, x *Field, extendee string, oneof
 				vf.TypeName = proto.String("." + sym.Name)
 				if e, _ := sym.Node.(*Enum); e != nil {
 					b.checkEnumUse(fl, full, sym, e)
+					for _, d := range e.Body {
+						if ev, ok := d.(*EnumVal); ok {
+							if ev.Number != 0 {
+								b.rej("map-enum-first-nonzero", "map field %s: first value of enum %s is %d, not 0", full, sym.Name, ev.Number)
+							}
+							break
+						}
+					}
 				}
 			}
 		}
@@ -763,8 +779,14 @@ func (b *builder) field(fl *File, scope string, x *Field, extendee string, oneof
 				kind = KEnum
 				isRepeatable = true
 				enumNode, _ = sym.Node.(*Enum)
-				if enumNode != nil && fd.GetLabel() != descriptorpb.FieldDescriptorProto_LABEL_REPEATED && oneof == nil && x.Label != "optional" {
-					b.checkEnumUse(fl, full, sym, enumNode)
+				if enumNode != nil {
+					if fd.GetLabel() != descriptorpb.FieldDescriptorProto_LABEL_REPEATED && oneof == nil && x.Label != "optional" {
+						b.checkEnumUse(fl, full, sym, enumNode)
+					} else if def := b.ws.File(sym.File); fl.Syntax == "proto3" && def != nil && (def.Syntax == "proto2" || def.Syntax == "") {
+						// protoc's rule for repeated / optional / oneof proto3 fields of a proto2 enum
+						// cannot be established offline (the Go runtime rejects them)
+						b.unk("proto3 field %s with presence or repeated uses proto2 enum %s", full, sym.Name)
+					}
 				}
 			}
 		}
@@ -779,7 +801,7 @@ func (b *builder) field(fl *File, scope string, x *Field, extendee string, oneof
 	}
 	seen := map[string]bool{}
 	for _, o := range x.Opts {
-		if seen[o.Name] {
+		if seen[o.Name] && !strings.HasPrefix(o.Name, "(") {
 			b.rej("option-set-twice", "field %s: option %s set twice", full, o.Name)
 		}
 		seen[o.Name] = true
